@@ -27,6 +27,13 @@ theorem C08_valve_duplicate_is_error (ext : Ext) (frs : List SplitPacket)
     assemble ext (sortChunks frs) = .err .packetBad :=
   assemble_duplicate ext frs hdup
 
+/-- A fragment of another response among the received ones (different header, id or announced total — a late
+duplicate of an earlier response, for instance) never yields a payload, whatever the arrival order. -/
+theorem C08_valve_foreign_fragment_is_error (ext : Ext) (frs : List SplitPacket) (p q : SplitPacket)
+    (hp : p ∈ frs) (hq : q ∈ frs) (hne : sameResponse p q = false) :
+    assemble ext (sortChunks frs) = .err .packetBad :=
+  assemble_foreign ext frs p q hp hq hne
+
 /-- In-order (hence, by the theorem above, any-order) arrival of the uncompressed fragments of a
 payload cut into chunks reassembles exactly the payload. -/
 theorem C08_valve_reassembles_payload (ext : Ext) (header id total size : Nat) (c : Bytes) (cs : List Bytes)
@@ -38,10 +45,16 @@ theorem C08_valve_reassembles_payload (ext : Ext) (header id total size : Nat) (
     (fun _ _ => rfl) (c :: cs) 0
   unfold sortChunks
   rw [List.mergeSort_of_pairwise hs]
+  have hall : ∀ (i : Nat) (l : List Bytes) (m : SplitPacket), m.header = header → m.id = id → m.total = total →
+      ((Spec.enumFrom i l).map fun p => (⟨header, id, total, p.1, size, none, p.2⟩ : SplitPacket)).all (sameResponse m) = true := by
+    intro i l m h1 h2 h3
+    induction l generalizing i with
+    | nil => rfl
+    | cons x r ih => simp [Spec.enumFrom, sameResponse, h1, h2, h3, ih]
   unfold assemble
   rw [hn]
   simp only [Bool.not_true, Bool.false_eq_true, ↓reduceIte, Spec.enumFrom, List.map_cons, getPayload,
-    List.flatten_cons]
+    List.flatten_cons, hall 1 cs ⟨header, id, total, 0, size, none, c⟩ rfl rfl rfl]
   congr 2
   -- the payloads of the remaining fragments are the remaining chunks
   suffices hgen : ∀ (i : Nat) (l : List Bytes),
